@@ -100,7 +100,7 @@ LANG_LABELS = ["English (en)", "French (fr)", "Swahili (sw)", "Tok Pisin (tpi)",
 @st.composite
 def _cases(draw):
     prof = dict(gen.PROFILES["broad"], p_or_other=0.15, p_meta=0.2, p_params=0.5, p_choice_nolabel=0.1, p_entities=0.1, p_multilang=0.5,
-                p_blank_row=0.15, lang_pool=5, settings="some", p_extra_sheets=0.0, text="plain")
+                p_blank_row=0.15, lang_pool=5, settings="some", p_extra_sheets=0.0, text="plain", p_group_media=0.2)
     g = gen.G(draw, prof)
     # language labels with / without codes
     global_langs = g.shuffled(LANG_LABELS)[: g.integer(1, 3)]
@@ -158,6 +158,19 @@ def _cases(draw):
             form["sheet_names"] = dict(form.get("sheet_names", {}), settings=g.pick(["Settings", "SETTINGS", "settings"]))
         if g.p("_", 0.5):
             form["extra_sheets"] = [g.pick(["settings2", "setting", "notes"])]
+    if g.p("_", 0.12):
+        # one column spells a language with a doubled or non-breaking space: still the same language (header tokens are cleaned)
+        sheet_rows = [n["c"] for n, _ in model.walk(nodes)] if g.p("_", 0.6) else [r for lst in form.get("lists", []) for r in lst["rows"]]
+        cols = sorted({k.split("::")[0] for r in sheet_rows for k in r if "::" in k and " " in k.split("::", 1)[1]
+                       and k.split("::")[0] in ("label", "hint", "constraint_message", "required_message", "guidance_hint", "image", "audio", "video")})
+        if cols:
+            col = g.pick(cols)
+            sp = g.pick(["  ", "\xa0", " \xa0", "\t"])
+            for r in sheet_rows:
+                for k in [k for k in r if k.startswith(col + "::") and " " in k]:
+                    b, lang = k.split("::", 1)
+                    val = r.pop(k)
+                    r[b + "::" + lang.replace(" ", sp, 1)] = val
     return {"form": form, "meta": {"kind": "random"}}
 
 
